@@ -303,7 +303,7 @@ pub fn instr(ctx: &mut Ctx) {
     let mut real = Real::new();
     let sizes = [-1, 0, 1, 8, 9, 27, 125];
     let idxs = [i32::MIN, -1, 0, 1, 4, 26, 124, 125, i32::MAX];
-    let dims = [i32::MIN, -1, 0, 1, 2, 3, 200, i32::MAX];
+    let dims = [i32::MIN, -1, 0, 1, 2, 3, 26, 40, 63, 64, 65, 200, i32::MAX];
     let rads = [-1.0f32, 0.0, 1.0, 1.6, 2.0, f32::NAN, f32::INFINITY];
     let positions = [-1, 0, 1, i32::MAX];
     // CODE stack of records: position k holds ( bool int float ) values recognisable by k
